@@ -18,8 +18,8 @@ CLAIMED = {
             "Trusted: Lean kernel, harness, hooks; allocation freshness is the C11/C12 models' guarantee; Vec growth and std copying assumed.",
             "DESIGN.md §5 C02"),
     "C03": (T_PROOF + ": soundness of the analysis model (reachability, effect classes, summaries, liveness) w.r.t. the evaluator model for any plan contained in the model's plan; correspondence on facts/plan/warnings + plan/no-plan differential",
-            "Theorems that pruned statements never change the run (simulation on live variables), unreachable statements never execute, PureNoTrap expressions neither trap nor have effects — proved on an evaluator with abstract lawful primitives, instantiated with the shared evaluator's own primitives (c03_concrete) and proved equivalent up to fuel to the shared evaluator model in both directions (c03_bridge, c03_bridge_converse), hence c03_eval for Eval.run itself; the real plan is checked to be contained in the model's plan on generated programs, the real runtime is run with and without the plan, and the concrete instance is run against the real runtime (arun).",
-            "Trusted: Lean kernel, harness; runs ending in fuel/stack exhaustion excluded as the property says; the decidable, plan-free side conditions (structOkB, bridge side conditions) are evaluated by the driver on every tested program (100 %), not proved for every resolver output.",
+            "Theorems that pruned statements never change the run (simulation on live variables), unreachable statements never execute, PureNoTrap expressions neither trap nor have effects — proved on an evaluator with abstract lawful primitives, instantiated with the shared evaluator's own primitives (c03_concrete) and proved equivalent up to fuel to the shared evaluator model in both directions (c03_bridge, c03_bridge_converse), hence c03_eval for Eval.run itself and c03_pipeline for the composed pipeline model; the real plan is checked to be contained in the model's plan on generated programs, the real runtime is run with and without the plan, and the concrete instance is run against the real runtime (arun).",
+            "Trusted: Lean kernel, harness; runs ending in fuel/stack exhaustion excluded as the property says; the bridge side conditions and most conjuncts of structOkB are proved for every accepted output of the resolver model (resolve_okBlock, resolve_structProved, sumOkB, …); the remainder structRest2B (variable part of efitList, own-store table, loop fixpoints, pure bodies) is a decidable, plan-free hypothesis evaluated by the driver on every tested program (it is false exactly for stores whose initialiser mutates another variable — never pruned — 38 of 646 generated programs).",
             "DESIGN.md §5 C03"),
     "C04": (T_PROOF + ": resolver model binds to the nearest enclosing declaration; most-recent-instance invariant makes dynamic id lookup equal lexical lookup on every reachable evaluator state",
             "Static theorem (binding = nearest enclosing declaration; functions visible throughout their block) and dynamic theorem (the runtime's whole-stack search by id finds the lexically visible instance) over the resolver and evaluator models; both models are tied to the code by differential runs (bindings and outputs).",
@@ -45,8 +45,8 @@ CLAIMED = {
             "Theorems relate the resolver model's diagnostics to a declarative WF judgement rule by rule (scoping exactly, typing under ReturnsTyped); the type tables and return-type-inference probes are taken from the real checker each run and the model's diagnostics are compared with the real ones on generated programs with single-rule violations in every context, incl. the composed source-text stream.",
             "Trusted: Lean kernel, probe/extractors, harness; the full equivalence is refuted by the D-09f witness (open finding: recovery type becomes a result type when return-type rounds do not settle); D-09b is fixed (fc05160) and kept as a pinned variant with a decided falsity witness.",
             "DESIGN.md §5 C09"),
-    "C10": (T_PROOF + ": lexer round trip render/lex for all token sequences and all valid separator assignments; parser depends on token kinds only; redundant parentheses erased (Pratt round trip)",
-            "Any two valid layouts of one token sequence lex alike (proved for all sequences and layouts), parsing depends only on token kinds, and full parenthesisation parses to the same tree; tied to the code by differential runs and by re-layout differentials on the real interpreter.",
+    "C10": (T_PROOF + ": lexer round trip render/lex for all token sequences and all valid separator assignments; parser depends on token kinds only; redundant parentheses erased (Pratt round trip); every later stage commutes with span erasure (end-to-end c10_pipeline)",
+            "Any two valid layouts of one token sequence lex alike (proved for all sequences and layouts), parsing depends only on token kinds, full parenthesisation parses to the same tree, and resolver, limit preflight, analyses and evaluator commute with span erasure — c10_pipeline: the two texts have the same pipeline observation (stage, diagnostic kinds, printed values, ending, runtime-error kind) for every caps, configuration and fuel; c10_redundant_parentheses_run; tied to the code by differential runs and by re-layout differentials on the real interpreter.",
             "Trusted: Lean kernel, extractor of lexical tables, harness.",
             "DESIGN.md §5 C10"),
     "C11": (T_PROOF + ": invariant and frame theorems over all arena operation histories (alloc/grow/shrink/reset/decommit/scratch); correspondence with the real Arena through the Allocator API and hooks",
@@ -77,7 +77,7 @@ CLAIMED = {
             "Theorem over all texts, all chunkings and all call counts for the model of read_line; the real function is driven through a real pipe with controlled chunk boundaries and compared with the model.",
             "Trusted: Lean kernel, harness; read(2) returns a non-empty prefix of the available bytes (assumed).",
             "DESIGN.md §5 C17"),
-    "C18": (T_PROOF + ": staged limit check exact at every boundary, first-exceeded-in-stage-order, limit ⇒ no plan and one warning, empty plan ⇒ same run; summary-event budget proved sufficient below the preflight limits for every call graph, component list and fuel (potential-function argument), equal-share design refuted; generated caps table + programs sized around each default cap; the real summary fixpoint against its model with budgets from the bound down to 0",
+    "C18": (T_PROOF + ": staged limit check exact at every boundary, first-exceeded-in-stage-order, limit ⇒ no plan and one warning, empty plan ⇒ same run; c18_pipeline: for any two caps the composed pipeline has the same observation up to fuel and warnings differ only by the limit warning; summary-event budget proved sufficient below the preflight limits for every call graph, component list and fuel (potential-function argument), equal-share design refuted; generated caps table + programs sized around each default cap; the real summary fixpoint against its model with budgets from the bound down to 0",
             "Theorems about the limits model (exactness, stage order, pipeline decision) and run equivalence under an absent plan; counts and decisions compared with the real analysis on random programs with small caps and on generated programs just below/at/above every default cap; the summary fixpoint (events, single global budget, Kosaraju scheduling) modelled and compared with the real one per function; large call-graph components below the limits against ring-of-3 twins; statement-heavy and binding-sensitive programs around the statement limit through the shipped binary.",
             "Trusted: Lean kernel, extractor of DEFAULT_CAPS, harness; the scheduling order of components is checked by correspondence, not proved (the budget theorems hold for every order); memory is finite: about 1 M statements exhaust the shipped binary's scratch arenas (D-20).",
             "DESIGN.md §5 C18"),
